@@ -185,4 +185,40 @@ Section Pass.
     change (cname F c, spec_args (cfields F c) vals) with (pass_spec c vals). rewrite E. reflexivity.
   Qed.
 
+  (* a pipeline of passes: every element is instantiated from its own spec, position by position
+     (the same class may occur several times with different option values) *)
+  Definition inst_ok (reg : list pass_class) (cv : pass_class * list pval) : Prop :=
+    class_ok (fst cv) /\ vals_ok (cfields F (fst cv)) (snd cv)
+    /\ find_class F reg (cname F (fst cv)) = Some (fst cv).
+  Definition inst_spec (cv : pass_class * list pval) := pass_spec (fst cv) (snd cv).
+
+  Lemma instantiate_all_ok : forall reg ps, Forall (inst_ok reg) ps ->
+    forallb (fun sp => match find_class F reg (fst sp) with Some _ => true | None => false end)
+            (map inst_spec ps) = true
+    /\ exists out, instantiate_all F fparse reg (map inst_spec ps) = Ok out
+         /\ Forall2 (fun cv o => fst o = cname F (fst cv) /\ rt_equal (cfields F (fst cv)) (snd cv) (snd o)) ps out.
+  Proof.
+    induction ps as [|[c vals] ps IH]; intros H.
+    - split; [reflexivity|]. exists []. split; [reflexivity|constructor].
+    - inversion H as [|? ? (Hc & Hv & Hf) H']; subst. cbn [fst snd] in *.
+      destruct (IH H') as (Hall & out & E & Hrt).
+      destruct (from_spec_pass_spec c vals Hc Hv) as (vals' & Efs & Hrt1).
+      cbn [map forallb instantiate_all]. change (inst_spec (c, vals)) with (pass_spec c vals).
+      change (fst (pass_spec c vals)) with (cname F c). rewrite Hf. split; [exact Hall|].
+      rewrite Efs, E. exists ((cname F c, vals') :: out). split; [reflexivity|].
+      constructor; [split; [reflexivity|exact Hrt1]|exact Hrt].
+  Qed.
+
+  Theorem pass_pipeline_roundtrip : forall reg ps, Forall (inst_ok reg) ps ->
+    exists out,
+      pipeline_from_text F fparse reg (print_pipeline F fstr (map inst_spec ps)) = Ok out
+      /\ Forall2 (fun cv o => fst o = cname F (fst cv) /\ rt_equal (cfields F (fst cv)) (snd cv) (snd o)) ps out.
+  Proof.
+    intros reg ps H. destruct (instantiate_all_ok reg ps H) as (Hall & out & E & Hrt).
+    exists out. split; [|exact Hrt]. unfold pipeline_from_text.
+    rewrite (pipeline_roundtrip F fparse fstr (map inst_spec ps)).
+    - rewrite Hall. exact E.
+    - apply Forall_forall. intros sp Hin. apply in_map_iff in Hin as ([c vals] & <- & Hin).
+      rewrite Forall_forall in H. destruct (H _ Hin) as (Hc & Hv & _). apply pass_spec_ok; assumption.
+  Qed.
 End Pass.
